@@ -64,11 +64,19 @@ typedef struct {
 #define CHECK_TYPES(val, t, arg, inst) \
   if (!((val)->type & (t))) bad_argument(val, t, arg, inst);
 
+/* the string join macros below build a new string: enforce the configured maximum string length
+ * before anything is modified (the operands are still on the stack and are popped by the error) */
+#define CHECK_STRING_JOIN_LENGTH(len) do {\
+        if ((len) > (size_t)CONFIG_INT (__MAX_STRING_LENGTH__)) \
+          error ("*Result of string addition is longer than maximum string length."); \
+        } while(0)
+
 /* Beek - add some sanity to joining strings */
 /* add to an svalue */
 #define EXTEND_SVALUE_STRING(x, y, z) do {\
         char *ess_res; size_t ess_len; size_t ess_r; \
         ess_len = (ess_r = SVALUE_STRLEN(x)) + strlen(y); \
+        CHECK_STRING_JOIN_LENGTH(ess_len); \
         if ((x)->subtype == STRING_MALLOC && MSTR_REF((x)->u.string) == 1) { \
           ess_res = (char *) extend_string((x)->u.string, ess_len); \
           if (!ess_res) fatal("Out of memory!\n"); \
@@ -87,6 +95,7 @@ typedef struct {
 #define SVALUE_STRING_ADD_LEFT(y, z) do {\
         char *pss_res; size_t pss_r; size_t pss_len; \
         pss_len = SVALUE_STRLEN(sp) + (pss_r = strlen(y)); \
+        CHECK_STRING_JOIN_LENGTH(pss_len); \
         pss_res = new_string(pss_len, z); \
         strcpy(pss_res, y); \
         strcpy(pss_res + pss_r, sp->u.string); \
@@ -101,6 +110,7 @@ typedef struct {
         char *ssj_res; size_t ssj_r; size_t ssj_len; \
         ssj_r = SVALUE_STRLEN(x); \
         ssj_len = ssj_r + SVALUE_STRLEN(y); \
+        CHECK_STRING_JOIN_LENGTH(ssj_len); \
         if ((x)->subtype == STRING_MALLOC && MSTR_REF((x)->u.string) == 1) { \
             ssj_res = (char *) extend_string((x)->u.string, ssj_len); \
             if (!ssj_res) fatal("Out of memory!\n"); \
